@@ -1,6 +1,8 @@
 import FqModel.Proto
 import FqModel.Bits
 import FqModel.Container
+import FqModel.ContainerPng
+import FqModel.ContainerGz
 import FqModel.Riff
 import FqModel.Gif
 import FqModel.Zip
@@ -215,6 +217,14 @@ def stepGzip (file : Bytes) (truth obs : Toks) : String :=
   match segs.mapM (fun s => gzTruth s.2) with
   | none => "BADOP gzip truth"
   | some ts =>
+    -- the member loop of the model (`parseGzip`), flate answered from the truth by position
+    let starts := (ts.foldl (fun (acc : Nat × List (Nat × Nat × Bytes)) t => (acc.1 + t.hlen + t.clen + 8, (acc.1 + t.hlen, t.clen, t.data) :: acc.2)) (0, [])).2
+    let oracle : Bytes → Option (Nat × Bytes) := fun bs => (starts.find? (fun e => e.1 + bs.length == file.length)).map (·.2)
+    match parseGzip oracle file with
+    | some (ms, root) =>
+      let model : Toks := ["ok", toString ms.length] ++ ms.flatMap (fun m => gzHeaderToks m.1 ++ gzBodyToks m.2) ++ ["U", hexB root]
+      verdictWith (gzProp ts obs) model obs
+    | none =>
     let pre := gzModelPrefix ts file
     -- the model predicts the member tokens; err/count only when every member is aligned
     let aligned := pre.getLast? != some "*"
@@ -376,52 +386,56 @@ def pngTexts (truth : Toks) : Option (List PngText) :=
 
 def tTEXT : Bytes := [0x74, 0x45, 0x58, 0x74]
 def tZTXT : Bytes := [0x7a, 0x54, 0x58, 0x74]
-def tPLTE : Bytes := [0x50, 0x4c, 0x54, 0x45]
-def tIDAT : Bytes := [0x49, 0x44, 0x41, 0x54]
 def tPHYS : Bytes := [0x70, 0x48, 0x59, 0x73]
 
 def pngChunkRaw (c : PngChunk) : Bytes := toBE 4 c.length ++ c.typ ++ c.data ++ toBE 4 c.crc
 
-/-- tokens of one chunk; `texts` are the truth texts not yet consumed (the zTXt inflate oracle) -/
-def pngChunkToks (c : PngChunk) (texts : List PngText) : Toks × List PngText :=
+/-- tokens of one chunk; `ct` = colour type seen so far; `texts` are the truth texts not yet consumed (the zTXt inflate oracle).
+    IHDR / PLTE / tRNS come from the model `pngBody`; text chunks and pHYs are rendered here. -/
+def pngChunkToks (ct : Nat) (c : PngChunk) (texts : List PngText) : Toks × List PngText × Nat :=
   let base := ["C", toString c.length, hexB c.typ, bit c.ancillary ++ bit c.priv ++ bit c.reserved ++ bit c.safeToCopy,
                toString c.crc, c.crcDesc, hexB (pngChunkRaw c)]
-  if c.typ == tIHDR then
-    match c.ihdr with
-    | some i => (base ++ ["I", toString i.width, toString i.height, toString i.bitDepth, toString i.colorType,
-                          toString i.compression, toString i.filter, toString i.interlace], texts)
-    | none => (base ++ ["*"], texts)
-  else if c.typ == tTEXT then
+  match pngBody ct c.typ c.data with
+  | none => (base ++ ["*"], texts, ct)
+  | some (.ihdr i) => (base ++ ["I", toString i.width, toString i.height, toString i.bitDepth, toString i.colorType,
+                          toString i.compression, toString i.filter, toString i.interlace], texts, i.colorType)
+  | some (.plte cols) => (base ++ ["P", toString cols.length, hexB (writePlte cols)], texts, ct)
+  | some (.trnsGray a) => (base ++ ["R", toString a, "~", "~", "~", "~"], texts, ct)
+  | some (.trnsRgb r g b) => (base ++ ["R", "~", toString r, toString g, toString b, "~"], texts, ct)
+  | some (.trnsPal al) => (base ++ ["R", "~", "~", "~", "~", hexB al], texts, ct)
+  | some .trnsNone => (base ++ ["R", "~", "~", "~", "~", "~"], texts, ct)
+  | some .iend => (base, texts, ct)
+  | some (.raw _) => (base, texts, ct)
+  | some .unmodelled =>
+  if c.typ == tTEXT then
     match takeCStr c.data with
-    | some (kw, rest) => (base ++ ["T", hexS kw, hexS rest], texts.drop 1)
-    | none => (base ++ ["*"], texts)
+    | some (kw, rest) => (base ++ ["T", hexS kw, hexS rest], texts.drop 1, ct)
+    | none => (base ++ ["*"], texts, ct)
   else if c.typ == tZTXT then
     match takeCStr c.data with
     | some (kw, cm :: _) =>
       if cm == 0 then
         match texts with
-        | t :: ts => (base ++ ["Z", hexS kw, "0", hexS t.text], ts)
-        | [] => (base ++ ["*"], texts)
-      else (base ++ ["Z", hexS kw, toString cm.toNat, "~"], texts.drop 1)
-    | _ => (base ++ ["*"], texts)
-  else if c.typ == tPLTE then
-    (if c.data.length % 3 == 0 then base ++ ["P", toString (c.data.length / 3), hexB c.data] else base ++ ["*"], texts)
+        | t :: ts => (base ++ ["Z", hexS kw, "0", hexS t.text], ts, ct)
+        | [] => (base ++ ["*"], texts, ct)
+      else (base ++ ["Z", hexS kw, toString cm.toNat, "~"], texts.drop 1, ct)
+    | _ => (base ++ ["*"], texts, ct)
   else if c.typ == tPHYS then
     (if c.data.length == 9 then base ++ ["Y", toString (beNat (c.data.take 4)), toString (beNat ((c.data.drop 4).take 4)), toString (beNat (c.data.drop 8))]
-     else base ++ ["*"], texts)
-  else (base, texts)
+     else base ++ ["*"], texts, ct)
+  else (base, texts, ct)
 
 def pngModel (file : Bytes) (texts : List PngText) : Toks :=
   match parsePng file with
   | none => ["err", "*"]
   | some r =>
     if r.err then ["err", "*"] else
-    let rec go : List PngChunk → List PngText → Toks → Toks
-      | [], _, acc => acc
-      | c :: cs, ts, acc =>
-        let (t, ts') := pngChunkToks c ts
-        if t.getLast? == some "*" then acc ++ t else go cs ts' (acc ++ t)
-    ["ok", hexB pngSig, toString r.chunks.length] ++ go r.chunks texts []
+    let rec go : Nat → List PngChunk → List PngText → Toks → Toks
+      | _, [], _, acc => acc
+      | ct, c :: cs, ts, acc =>
+        let (t, ts', ct') := pngChunkToks ct c ts
+        if t.getLast? == some "*" then acc ++ t else go ct' cs ts' (acc ++ t)
+    ["ok", hexB pngSig, toString r.chunks.length] ++ go 0 r.chunks texts []
 
 def pngProp (truth : Toks) (texts : List PngText) (obs : Toks) : String :=
   match obs with
@@ -453,7 +467,7 @@ def pngProp (truth : Toks) (texts : List PngText) (obs : Toks) : String :=
     match crcs 0 chunks with
     | some why => s!"PROPFAIL png: {why}"
     | none =>
-      let want := ["I", (kvGet truth "w").getD "?", (kvGet truth "h").getD "?", (kvGet truth "bd").getD "?", (kvGet truth "ct").getD "?", "0", "0", "0"]
+      let want := ["I", (kvGet truth "w").getD "?", (kvGet truth "h").getD "?", (kvGet truth "bd").getD "?", (kvGet truth "ct").getD "?", "0", "0", (kvGet truth "il").getD "0"]
       match chunks with
       | first :: _ =>
         if first.drop 6 != want then s!"PROPFAIL png: IHDR fields {showToks (first.drop 6)} expected {showToks want}"
@@ -463,6 +477,26 @@ def pngProp (truth : Toks) (texts : List PngText) (obs : Toks) : String :=
             | some "~" => false
             | some p => (chunks.find? (fun (c : Toks) => c[1]? == some (hexB tPLTE))).map (fun (c : Toks) => c.drop 6) != some ["P", toString (p.length / 6), p]
             | none => true) then "PROPFAIL png: PLTE is not the palette written"
+        else if (match kvGet truth "trns" with
+            | some t => (chunks.find? (fun (c : Toks) => c[1]? == some (hexB tTRNS))).map (fun (c : Toks) => c.drop 6) != some ("R" :: t.splitOn ":")
+            | none => false) then "PROPFAIL png: tRNS fields differ from what was written"
+        else if let some why := (match kvGet truth "idat", (kvGet truth "raw").bind unhex with
+            | some z, some raw =>
+              -- the data of all IDAT chunks, in order, is the zlib stream the writer cut into pieces …
+              let pieces := (chunks.filter (fun (c : Toks) => c[1]? == some (hexB tIDAT))).map (fun (c : Toks) =>
+                match (c[5]?).bind unhex with
+                | some rb => (rb.drop 8).take (rb.length - 12)
+                | none => [])
+              if hexB pieces.flatten != z then some "the IDAT chunks' data do not concatenate to the zlib stream written"
+              else if (kvNat truth "nidat").any (· != pieces.length) then some "number of IDAT chunks"
+              else
+                -- … and that stream is RFC 1950 framing of the scanline data (Lean reader, flate as an oracle)
+                match parseZlib (fun bs => some (bs.length - 4, raw)) pieces.flatten with
+                | .ok (r, rest) => if r.data == raw && rest.isEmpty && !r.hdr.fdict then none else some "IDAT zlib framing: payload / trailing bytes / FDICT"
+                | .error _ => some "IDAT zlib framing: header check or Adler-32 of the scanline data"
+            | none, _ => none
+            | _, none => some "BADTRUTH raw") then
+          s!"PROPFAIL png: {why}"
         else if (match kvGet truth "phys" with
             | some p => (chunks.find? (fun (c : Toks) => c[1]? == some (hexB tPHYS))).map (fun (c : Toks) => c.drop 6) != some ("Y" :: p.splitOn ":")
             | none => false) then "PROPFAIL png: pHYs fields differ from what was written"
@@ -926,6 +960,30 @@ def stepCor (format : String) (file : Bytes) (cs obs : Toks) : String :=
           else s!"PROPFAIL {format}: byte {p} (kind {k}) altered inside a checksummed region, result {o} — clean"
     go cs obs none
 
+/-! ### zlib framing, directly: `zlb <valid> <hex stream> <clen|x> <hex data>` TAB `ok <hex text> | err`
+    The harness puts the stream into the zTXt chunk of a small png; fq's outcome for that chunk is compared with the model of the
+    library reader (`parseZlib`, flate answered from the truth: `x` = flate fails). valid = 1: a stream an independent writer made,
+    fq must show the text; 0: a broken stream (header check, unknown dictionary, Adler-32, cut trailer), never a clean result;
+    2: model comparison only. -/
+def stepZlb (valid shex sclen sdata obs : String) : String :=
+  match unhex shex, unhex sdata with
+  | some stream, some data =>
+    let oracle : Bytes → Option (Nat × Bytes) := fun bs =>
+      match sclen.toNat? with
+      | some n => if n ≤ bs.length then some (n, data) else none
+      | none => none
+    let model := match parseZlib oracle stream with
+      | .ok (r, _) => s!"ok {hexB r.data}"
+      | .error _ => "err"
+    let prop :=
+      if valid == "1" then (if obs == s!"ok {hexB data}" then "OK" else s!"PROPFAIL zlib: intact stream of {data.length} bytes not shown as written: {obs.take 80}")
+      else if valid == "0" then (if obs == "err" then "OK" else s!"PROPFAIL zlib: broken stream gives a clean result: {obs.take 80}")
+      else if valid == "2" then "OK" else "BADOP zlb valid"
+    if prop.startsWith "BADOP" then prop
+    else if prop == "OK" then verdict model obs
+    else if model == obs then prop else s!"{prop} ;DIVERGE model={model.take 80}"
+  | _, _ => "BADOP zlb hex"
+
 /-! ### dispatch -/
 
 /-- a `dec` line, or (nested = true) an `nst` line: the same judgement on the inner file -/
@@ -964,6 +1022,12 @@ def stepDec (nested : Bool) (format fhex : String) (truth : Toks) (obs : String)
 def stepC15 (op obs : String) : String :=
   match words op with
   | ["crc", name, bits, init, hex] => stepCrc name bits init hex obs
+  | ["mdl", "tar", fhex] =>
+    -- model comparison only (files outside what fq supports: base-256 numbers): does the decode end in an error?
+    match unhex fhex with
+    | some file => verdict (if (parseTar file).err then "err" else "ok") obs
+    | none => "BADOP file hex"
+  | ["zlb", valid, shex, sclen, sdata] => stepZlb valid shex sclen sdata obs
   | "dec" :: format :: fhex :: truth => stepDec false format fhex truth obs
   | "nst" :: _path :: _outer :: format :: fhex :: truth => stepDec true format fhex truth obs
   | "cor" :: format :: fhex :: cs =>
